@@ -14,6 +14,7 @@ from mirsym.engine import NONE, SOME, It
 from mirsym.models2 import BTreeMapM
 
 ID = 'C16'
+TECHNIQUE = 'symbolic execution of rustc MIR (path-forking) + z3 SMT queries per path; violations reported on the solver verdict (conversion functions are private; no native replay)'
 CRATES = ['jj-lib']
 NATIVE = None
 NATIVE_CONFIRM = False      # the conversion functions are private; the public path goes through files
